@@ -426,7 +426,8 @@ int main(int argc, char ** argv) {
         for (std::string line; std::getline(es, line);)
             if (line.find("SUMMARY") != std::string::npos || line.find("runtime error") != std::string::npos || line.find("vs_fatal") != std::string::npos) { sum = line; break; }
         std::string kind = (WIFEXITED(status) && WEXITSTATUS(status) == 10) ? "deadlock/livelock" : "crash";
-        printf("{\"harness\":\"file\",\"params\":%s,\"evaluations\":1,\"files\":0,\"distinct\":0,\"samples\":[],\"violations\":[{\"prop\":\"%s\",\"key\":\"%s|%s\",\"what\":\"%s during the session: %s\",\"spec\":\"%s\",\"count\":1}],\"wall_s\":0}\n",
+        /* the child's last output line may be cut off: start a new one */
+        printf("\n{\"harness\":\"file\",\"params\":%s,\"evaluations\":1,\"files\":0,\"distinct\":0,\"samples\":[],\"violations\":[{\"prop\":\"%s\",\"key\":\"%s|%s\",\"what\":\"%s during the session: %s\",\"spec\":\"%s\",\"count\":1}],\"wall_s\":0}\n",
                args.json().c_str(), kind == "crash" ? "C10" : "C06", kind.c_str(), vx::jesc(std::string(g_cur->label).substr(0, 60)).c_str(), kind.c_str(), vx::jesc(sum).c_str(), vx::jesc(g_cur->label).c_str());
         rc = 1;
     }
